@@ -564,23 +564,25 @@ def addr_tokens(line):
     return [t for t in _TOK.findall(line) if canonical_ip(t)]
 
 
-def width_ok(line):
-    """lines the width-preserving substitution is made for: every address once, followed (after its port) by a blank
-    and by enough blanks to absorb a longer substitute; everything else is the listed finding width-mode-garble"""
-    quads = re.findall(r"[0-9]{1,3}(?:\.[0-9]{1,3}){3}", line)
-    toks = addr_tokens(line)
-    if sorted(quads) != sorted(toks) or len(set(toks)) != len(toks):
-        return False
-    for t in toks:
-        if t == "127.0.0.1":
-            continue
-        rest = line[line.index(t) + len(t):]
-        m = re.match(r"(:[0-9*]+)?( *)", rest)
-        tail = rest[m.end():]
-        need = max(0, 15 - len(t)) + 1
-        if tail != "" and len(m.group(2)) < need:
-            return False
-    return True
+def width_deletes(line, k):
+    """INPUT-ONLY predicate of the width-mode findings: on this line the keep-width step can damage text. Either it REMOVES
+    characters: the line contains (anywhere, our own scan) an address that is shorter than a substitute that can have been
+    issued by now — 10.230.230.1 + j with j < k, k = number of distinct addresses met so far in the history incl. this
+    call. Or it pads in the wrong place: an address longer than a substitute is followed by text without any blank.
+    On every other width-mode line blanks are inserted at a blank behind the address, or the parser raises."""
+    longest = max(len(int2ip(START + j)) for j in range(max(1, min(k, 70000))))
+    for m in re.finditer(r"[0-9]{1,3}(?:\.[0-9]{1,3}){3}", line):
+        q = m.group(0)
+        for a in (q, q[1:], q[2:]):          # (a match of the cleaner may start inside a longer digit run)
+            if canonical_ip(a) and a != "127.0.0.1":
+                if len(a) < longest:
+                    return True
+                # the other way the step damages a line: an address LONGER than its substitute (12 characters at least)
+                # with text but no blank behind it — the padding is then inserted before the LAST character of the line
+                tail = line[m.end():]
+                if len(a) > 12 and tail != "" and " " not in tail:
+                    return True
+    return False
 
 
 def classify(cfg, kind, seen, maps):
@@ -626,7 +628,9 @@ class Oracle(object):
         self.inputs += call["lines"]
         for l in call["lines"]:
             scan_inputs(cfg, l, self.seen)
-        if call.get("width") and not all(width_ok(l) for l in call["lines"]):
+        k_now = len(self.seen["ip"])
+        if call.get("width") and cfg["obfuscate"] and "ip" not in call["no_obfuscate"] \
+                and any(width_deletes(l, k_now) for l in call["lines"]):
             self.garbled = "width-mode-garble"
         issued = maps
         for k in ("ip", "hostname", "mac", "ipv6"):
@@ -657,7 +661,7 @@ class Oracle(object):
         if out == [RAISED]:
             self.not_emitted += 1
             return
-        self.emitted.append((idx, call, out))
+        self.emitted.append((idx, call, out, len(self.seen["ip"])))
         # what the outputs show: only when every line survived and splits into the same fields
         if len(out) != len(call["lines"]) or call.get("width"):
             return
@@ -722,25 +726,27 @@ class Oracle(object):
         cfg = self.cfg
         ipmap = dict(maps["ip"])
         subs = set(ipmap.values())
-        for idx, call, out in self.emitted:
+        for idx, call, out, k_now in self.emitted:
             if not (cfg["obfuscate"] and "ip" not in call["no_obfuscate"]):
                 continue
-            garble = "width-mode-garble" if call.get("width") and not all(width_ok(l) for l in call["lines"]) else None
             aligned = len(out) == len(call["lines"])
-            for n, line in enumerate(out):
-                # excused ONLY by the input: a width=True call and the source line is not one the width-preserving
-                # substitution is made for (when lines were dropped the source line is unknown: any line of the call)
+            wm = " (width mode)" if call.get("width") else ""
+
+            def excused(n):
+                # ONLY by the input: a width=True call and a source line on which the keep-width step removes characters
+                # (when lines were dropped the source line of an output line is unknown: any line of the call)
                 src = [call["lines"][n]] if aligned else call["lines"]
-                raw = "width-mode-raw-original" if call.get("width") and not all(width_ok(l) for l in src) else None
+                return bool(call.get("width")) and any(width_deletes(l, k_now) for l in src)
+            for n, line in enumerate(out):
                 for t in addr_tokens(line):
                     if t in ipmap and t not in subs and t != "127.0.0.1":
                         fail("call %d%s was emitted with the raw original %r which the mapping pairs with %r: %r" % (
-                            idx, " (width mode)" if call.get("width") else "", t, ipmap[t], line), "ip", issued, raw)
-            if len(out) != len(call["lines"]):
+                            idx, wm, t, ipmap[t], line), "ip", issued, "width-mode-raw-original" if excused(n) else None)
+            if not aligned:
                 continue
             if "password" not in call["no_obfuscate"] and any("password" in l for l in call["lines"]):
                 continue
-            for li, lo in zip(call["lines"], out):
+            for n, (li, lo) in enumerate(zip(call["lines"], out)):
                 tin, tout = addr_tokens(li), addr_tokens(lo)
                 for o in set(tin):
                     if o in ipmap and o != "127.0.0.1":
@@ -748,8 +754,8 @@ class Oracle(object):
                         want = tin.count(o) + tin.count(sub) - (tin.count(o) if o == sub else 0)
                         if tout.count(sub) != want:
                             fail("call %d%s: %d occurrence(s) of %r went in, %d of its substitute %r came out: %r -> %r" % (
-                                idx, " (width mode)" if call.get("width") else "", tin.count(o), o, tout.count(sub), sub, li, lo),
-                                "ip", issued, garble)
+                                idx, wm, tin.count(o), o, tout.count(sub), sub, li, lo),
+                                "ip", issued, "width-mode-garble" if excused(n) else None)
 
 
 # --------------------------------------------------------------------------- run one history
